@@ -22,7 +22,7 @@ RULE = ("(A) random all-explicit workloads (multi-BC model from velocity points,
         "(B) every float-or-quantity parameter site x values {0, -0.0, 1, -3.5, 1e-3, 250, random} x random slot "
         "assignments, bare number vs slot_unit(number); a case = (workload, assignment) or (site, value, assignment); "
         "non-trivial when the assignment differs from the defaults")
-MUST_OBSERVE = ["workloads", "assignments_compared", "preset_imperial", "preset_metric", "preset_mixed", "numbers_compared",
+MUST_OBSERVE = ["workloads", "assignments_compared", "preset_imperial", "preset_metric", "preset_mixed", "numbers_compared", "staged_sessions_compared",
                 "sites_checked", "site_values_zero", "site_values_negative", "site_values_positive", "both_raised_same",
                 "sfp_workloads", "sites_distinct"]
 ASSUMPTIONS = ["fire(trajectory_step=0) is the documented default 'no step given': bare 0 there is compared with omitting the "
@@ -57,31 +57,49 @@ def random_assignment(rng):
 
 
 # =============================================================================== part A
-def workload(w):
-    """Everything explicit.  Returns a nested snapshot of every number produced."""
+def workload(w, stages=None):
+    """Everything explicit.  Returns a nested snapshot of every number produced.
+    stages: assignments switched to, in turn, between construction / computation steps (a session whose preferred
+    units change while objects are being built and used); None = one setting throughout."""
     s = w["shot"]
     out = {}
+    turn = [0]
+
+    def switch():
+        if stages:
+            assign(stages[turn[0] % len(stages)])
+            turn[0] += 1
+    switch()
     table = build.table(s["table"])
     pts = [BCPoint(bc, V=Velocity.MPS(v)) for bc, v in w["bc_points"]]
     dm = DragModelMultiBC(pts, table, Weight.Gram(w["weight_g"]), Distance.Millimeter(w["diameter_mm"]), Distance.Centimeter(w["length_cm"]))
     out["model"] = (dm.BC, [(p.Mach, p.CD) for p in dm.drag_table], snap(dm.weight), snap(dm.diameter), snap(dm.length))
+    switch()
     ammo = Ammo(dm, Velocity.MPS(w["mv_mps"]), Temperature.Celsius(w["powder_c"]))
     out["powder_modifier"] = ammo.calc_powder_sens(Velocity.KMH(w["cal_v_kmh"]), Temperature.Kelvin(w["cal_t_k"]))
     ammo.use_powder_sensitivity = True
+    switch()
     atmo = Atmo(Distance.Meter(w["alt_m"]), Pressure.MmHg(w["p_mmhg"]), Temperature.Rankin(w["t_r"]), w["rh"], Temperature.Fahrenheit(w["powder_f"]))
     out["atmo"] = (atmo.density_ratio, atmo._mach, atmo._t0, atmo._p0, atmo._a0, snap(atmo.powder_temp))  # pylint: disable=protected-access
     out["icao"] = snap(Atmo.icao(Distance.Kilometer(w["alt_m"] / 1000.0)))
+    switch()
     sight = Sight(w["plane"], Distance.Yard(w["scale_yd"]), Angular.MOA(w["h_click_moa"]), Angular.CmPer100m(w["v_click_cm100"]))
     weapon = Weapon(Distance.Centimeter(w["sight_cm"]), Distance.Millimeter(w["twist_mm"]), Angular.MRad(w["zero_mrad"]), sight)
-    winds = [Wind(Velocity.KT(sp), Angular.OClock(oc), Distance.Meter(until)) for sp, oc, until in w["winds"]]
+    winds = []
+    for sp, oc, until in w["winds"]:
+        switch()
+        winds.append(Wind(Velocity.KT(sp), Angular.OClock(oc), Distance.Meter(until)))
+    switch()
     shot = Shot(weapon, ammo, Angular.Thousandth(w["look_ths"]), Angular.InchesPer100Yd(w["rel_iphy"]), Angular.Degree(w["cant_deg"]), atmo, winds)
     calc = Calculator()
+    switch()
     with monitors.quiet():
         try:
             out["zero"] = snap(calc.set_weapon_zero(shot, Distance.Meter(w["zero_m"])))
         except (pb.ZeroFindingError, pb.RangeError, ValueError, ZeroDivisionError) as e:
             out["zero"] = ("raise", type(e).__name__)
             return out
+        switch()
         try:
             hit = calc.fire(shot, Distance.Mile(w["range_mi"]), Distance.Line(w["step_line"]), extra_data=True)
             rows = list(hit)
@@ -95,6 +113,7 @@ def workload(w):
             out["rows_default_step"] = [snap(r) for r in calc.fire(shot, Distance.Meter(w["zero_m"]))]
         except pb.RangeError as e:
             out["rows_default_step"] = ("RangeError", e.reason, len(e.incomplete_trajectory))
+    switch()
     try:
         ds = hit.danger_space(Distance.NauticalMile(w["ds_at_nmi"]), Distance.Foot(w["ds_h_ft"]), Angular.Mil(w["ds_look_mil"]))
         out["danger"] = (rows.index(ds.begin), rows.index(ds.end), rows.index(ds.at_range), snap(ds.target_height), snap(ds.look_angle))
@@ -124,8 +143,12 @@ def check_workload(ctx, case):
         ctx.count("sfp_workloads")
     n = count_numbers(ref)
     for a in case["assignments"]:
-        assign(a)
-        got = workload(w)
+        if isinstance(a, dict) and "stages" in a:
+            got = workload(w, a["stages"])
+            ctx.count("staged_sessions_compared")
+        else:
+            assign(a)
+            got = workload(w)
         ctx.count("assignments_compared")
         if isinstance(a, str):
             ctx.count("preset_" + a)
@@ -138,6 +161,19 @@ def check_workload(ctx, case):
                           f"under preferred units {a} the result differs from the default-units run at {d[0]}: "
                           f"{unhex(d[1])!r} vs {unhex(d[2])!r}", c, path=d[0])
     monitors.reset_all()
+
+
+def _winds(rng):
+    ws = [[round(rng.uniform(0, 20), 1), rng.choice([3.0, 9.0, 12.0, round(rng.uniform(0, 12), 1)]), round(rng.uniform(50, 900), 0)]
+          for _ in range(rng.choice([0, 1, 2, 2, 3]))]
+    if len(ws) >= 2 and rng.random() < 0.6:
+        # neighbouring until-distances a few per cent apart (300 yd vs 290 m): their order flips if they are ever compared in
+        # the numbers of different display units
+        ws[1][2] = round(ws[0][2] * rng.uniform(1.01, 1.09), 0)
+        ws[1][1] = (ws[0][1] + 6.0) % 12.0
+        ws[1][0] = max(ws[1][0], 8.0)
+    rng.shuffle(ws)
+    return ws
 
 
 def gen_workload(rng):
@@ -153,8 +189,7 @@ def gen_workload(rng):
             "plane": rng.choice(["FFP", "SFP", "SFP", "LWIR"]), "scale_yd": round(rng.uniform(50, 200), 0),
             "h_click_moa": rng.choice([0.25, 0.125, 0.5]), "v_click_cm100": rng.choice([1.0, 0.5, 0.7]),
             "sight_cm": round(rng.uniform(0, 9), 1), "twist_mm": rng.choice([0.0, 254.0, -203.2]), "zero_mrad": round(rng.uniform(-1, 3), 3),
-            "winds": [[round(rng.uniform(0, 20), 1), rng.choice([3.0, 9.0, 12.0, round(rng.uniform(0, 12), 1)]), round(rng.uniform(50, 900), 0)]
-                      for _ in range(rng.choice([0, 1, 2]))],
+            "winds": _winds(rng),
             "look_ths": round(rng.uniform(-300, 300), 1), "rel_iphy": round(rng.uniform(-20, 80), 1), "cant_deg": rng.choice([0.0, round(rng.uniform(-30, 30), 1)]),
             "zero_m": rng.choice([50.0, 100.0, 300.0]), "range_mi": round(rng.uniform(0.1, 0.5), 3), "step_line": round(rng.uniform(5000, 40000), 0),
             "ds_at_nmi": round(rng.uniform(0.02, 0.2), 3), "ds_h_ft": round(rng.uniform(0.3, 6), 2), "ds_look_mil": round(rng.uniform(-100, 100), 0),
@@ -317,7 +352,9 @@ def run(ctx):
             break
         w = gen_workload(rng)
         check_workload(ctx, {"kind": "workload", "workload": w,
-                             "assignments": ["imperial", "metric", "mixed"] + [random_assignment(rng) for _ in range(k_assign)]})
+                             "assignments": ["imperial", "metric", "mixed"] + [random_assignment(rng) for _ in range(k_assign)]
+                             + [{"stages": [rng.choice(["defaults", "metric", "imperial", random_assignment(rng)]) for _ in range(rng.randint(2, 4))]}
+                                for _ in range(3)]})
 
 
 def replay(ctx, case):
